@@ -6,6 +6,8 @@ cd "$(dirname "$0")/.."
 out=seeded/FIXES-REVERTED.md
 echo "# Fix commits undone one at a time vs checks ($(date -u +%Y-%m-%dT%H:%MZ), /repo $(git -C /repo log --format=%h -1))" > $out
 echo >> $out
+if [ -n "${VERIF_NO_CORPUS:-}" ]; then echo "Search alone (VERIF_NO_CORPUS=1: the regression corpus under replays/<id>/fixed-*.json was not replayed), ${VERIF_WORKERS:-16} workers, ${1:-60} s budget. With the corpus every row is 1 by construction." >> $out; else echo "With the regression corpus (replays/<id>/fixed-*.json) replayed first, as in every registered check." >> $out; fi
+echo >> $out
 echo "| fix commit | property | check exit (1 = violation reported again) | class |" >> $out
 echo "|---|---|---|---|" >> $out
 grep '^fixed:' known-findings.txt | while read -r _ prop hash rest; do
